@@ -170,8 +170,9 @@ def check_c19(prop, tier):
         for h in rng.sample(hists, min(sz["fixture"], len(hists))):
             seed += 1
             items.append(("fixture", {"seed": seed, "hist": h}))
-        events = parallel(_klatt_job, items, work)
-        events += parallel(_point_job, rand_point_objects(sz["prand"], common.SEED), work)
+        events = parallel(common.Guarded(_klatt_job), items, work)
+        events += parallel(common.Guarded(_point_job), rand_point_objects(sz["prand"], common.SEED), work)
+        events = common.split_broken(res, prop, events)
         for ev in events:
             a = ev["args"]
             if ev["op"] in ("modifySubtiers", "modifyValues"):
@@ -356,8 +357,9 @@ def check_c20(prop, tier):
         res.exhaustive = True
         items = [{"op": "median", "xs": e["xs"], "args": e["args"], "impl": e["ret"]} for e in emitted]
         items += rand_series_vectors(sz["srand"], common.SEED)
-        events = parallel(_series_job, items, work)
-        ndrift = sum(1 for v, e in zip(items, events) if "impl" in v and v["impl"] != e["ret"])
+        events = parallel(common.Guarded(_series_job), items, work)
+        ndrift = sum(1 for v, e in zip(items, events) if "impl" in v and not e.get("broken") and v["impl"] != e["ret"])
+        events = common.split_broken(res, prop, events)
         for ev in events:
             a = ev["args"]
             res.distinct.add((ev["op"], ev["st"], json.dumps(a, sort_keys=True)[:50], min(len(ev.get("xs", ev.get("rows", []))), 6),
